@@ -292,7 +292,7 @@ func runC13(rt *rapid.T, c c13case, st *stats.Collector) {
 		itemStep(Item{Kind: "eos"}, nil, 0, nil))
 	var got []proto.Progress
 	q := ch.Query{Body: "SELECT 1", QueryID: "q-1", OnProgress: func(ctx context.Context, p proto.Progress) error { got = append(got, p); return nil }}
-	if err := client.Do(context.Background(), q); err != nil {
+	if err := doBounded(rt, e, client, context.Background(), q, time.Minute, fmt.Sprintf("follow-up query at negotiated revision %d (client %d, server %d)", N, c.clientRev, c.serverRev)); err != nil {
 		rt.Fatalf("follow-up query at negotiated revision %d: %v", N, err)
 	}
 	wantP := proto.Progress{Rows: 7, Bytes: 8, TotalRows: 9, WroteRows: 10, WroteBytes: 11}
@@ -314,7 +314,7 @@ func runC13(rt *rapid.T, c c13case, st *stats.Collector) {
 	// Parameters are refused iff N < 54459.
 	e.srv.Steps = append(e.srv.Steps, itemStep(Item{Kind: "eos"}, simnet.AfterQuery(2), 0, nil))
 	before := e.conn.NumWrites()
-	perr := client.Do(context.Background(), ch.Query{Body: "SELECT {a:Int8}", Parameters: []proto.Parameter{{Key: "a", Value: "1"}}})
+	perr := doBounded(rt, e, client, context.Background(), ch.Query{Body: "SELECT {a:Int8}", Parameters: []proto.Parameter{{Key: "a", Value: "1"}}}, time.Minute, "query with parameters")
 	if N < ref.RevParameters {
 		if perr == nil || e.conn.NumWrites() != before {
 			rt.Fatalf("parameters at negotiated revision %d: err=%v, writes %d -> %d (want refusal without writing)", N, perr, before, e.conn.NumWrites())
